@@ -183,6 +183,25 @@ PROPS["C14"] = {
     ],
 }
 
+PROPS["C17"] = {
+    "features": ["c17"],
+    "modules": ["c17_erased::"],
+    "needs_rand_090": False,
+    "functions": [
+        "blanket impls DynSelector / DynMutator / DynRecombinator / DynOperator / DynChildMaker for T (ec_core::operator::{selector,mutator,recombinator}::erased, operator::erased, child_maker::erased)",
+        "the impls generated by #[ec_macros::dyn_ref_impls]: Selector / Mutator / Recombinator / Operator / ChildMaker for {&, &mut, RefMut, Box, Arc, Rc, Ref}<dyn Dyn* [+ Send][+ Sync]>",
+    ],
+    "bounds": {
+        "quick": "all 140 instantiations (5 traits x 7 pointer flavours x {none, Send, Sync, Send+Sync}) + the default Box<dyn Error + Send + Sync> error form for three traits; wrapped "
+                 "implementation = a concrete pure probe that draws two/three words and fails on a stream-dependent condition; all arguments and the 3-word tape symbolic; "
+                 "direct call and erased call run from two clones of the tape",
+    },
+    "has_thorough_harnesses": False,
+    "outside": "wrapped implementations other than the probes (the erased forms are generic forwarding code; a different wrapped type instantiates the same source); "
+               "streams longer than 3 words",
+    "assumptions": ["one probe implementation per trait stands for 'all wrapped implementations' (the forwarding code does not inspect the wrapped value)"],
+}
+
 PROPS["C18"] = {
     "features": ["c18"],
     "modules": ["c18_generators::"],
